@@ -2,7 +2,7 @@
 C = None
 
 
-def _module(sent):
+def _module(sent, omit=0):
     from bounded import nodelib
     from frappy.modules import Readable, Parameter
     from frappy.datatypes import FloatRange, StringType, IntRange, StructOf, EnumType
@@ -20,7 +20,7 @@ def _module(sent):
         sent.append((m, pobj.name, pobj.value, pobj.readerror, pobj.timestamp, bool(m.updateLock._is_owned())))
     srv = types.SimpleNamespace(dispatcher=types.SimpleNamespace(announce_update=update_callback),
                                 secnode=types.SimpleNamespace(equipment_id='verif', name='node'))
-    m = Dev('m', nodelib.quiet_logger(), {'description': 'd'}, srv)
+    m = Dev('m', nodelib.quiet_logger(), {'description': 'd', 'omit_unchanged_within': omit}, srv)
     m.updateCallback = update_callback
     return m
 
@@ -30,11 +30,11 @@ def gen_history(tier, rng):
     invalid values (-> readerror), explicit errors (repeated and changing), explicit and missing timestamps, validate on/off;
     parameter callbacks that raise"""
     from frappy.errors import CommunicationFailedError, HardwareError
-    vals = {'value': [0.0, 1.5, 1.5, 11.0, 'x', None], 'text': ['', 'a', 'a', 5], 'cnt': [0, 1, 1, 9, 2.5], 'st': [{'a': 1, 'b': 'x'}, {'a': 1, 'b': 'x'}, {'a': 9}, 5]}
+    vals = {'value': [0.0, 1.5, 1.5, 1.5000000001, 1.50000001, 1.5000001, 1.6, 11.0, 'x', None], 'text': ['', 'a', 'a', 5], 'cnt': [0, 1, 1, 9, 2.5], 'st': [{'a': 1, 'b': 'x'}, {'a': 1, 'b': 'x'}, {'a': 9}, 5]}
     errs = [None, None, None, CommunicationFailedError('x'), CommunicationFailedError('x'), HardwareError('y'), ValueError('plain')]
     for h in range(40 if tier == 'quick' else 400):
         sent = []
-        m = _module(sent)
+        m = _module(sent, omit=rng.choice([0, 0.5, 5]))
         m.addCallback('value', lambda *a: (_ for _ in ()).throw(RuntimeError('callback failed')))
         t = 1000.0
         for step in range(12):
@@ -48,7 +48,7 @@ def gen_history(tier, rng):
                     validate = False
                 except Exception:
                     pass
-            ts = rng.choice([None, t, t + 0.01, t + 5])
+            ts = rng.choice([None, t, t + 0.01, t + 0.3, t + 5])
             t += rng.choice([0, 0.01, 1])
             if err is not None:
                 err = type(err)(*err.args)         # a fresh exception object each time (repeated errors are equal, not identical)
